@@ -27,7 +27,7 @@ CLAIMED = {
             "constructed on the Ok edge of verify() or in an unsafe fn, and six violating client programs fail to "
             "compile (twins compile). Decides 'accepts iff in range'; not 'accepted configs never panic'.", "4/C07"),
     "C16": ("CONSTARG + MPT + operand dataflow on the CRC verification sites; ERRDISC on nom::Err; PANICSITE "
-            "enumeration from parser::stream with a per-site SAFE table + FRAMING (frames read until end of input with CRC checks on, no error-swallowing combinator) + IMPLICIT (bounds/overflow/shift/division assertions on the stream-parse path discharged from field widths read, guards, loop ranges and payload bounds; 5 SAFE entries resting on the STREAMINFO invariant); PANICSITE also lists fixed-capacity (heapless) containers filled through FromIterator / Extend, directly or through a generic helper instantiated with one",
+            "enumeration from parser::stream with a per-site SAFE table + FRAMING (frames read until end of input with CRC checks on, no error-swallowing combinator) + IMPLICIT (bounds/overflow/shift/division assertions on the stream-parse path discharged from field widths read, guards, loop ranges and payload bounds; 5 SAFE entries resting on the STREAMINFO invariant); PANICSITE also lists fixed-capacity (heapless) containers filled through FromIterator / Extend, directly or through a generic helper instantiated with one, and range slicing / copy_from_slice / split_at library calls",
             "CRC-8/CRC-16 verification is shown to be unconditional on the stream path, on every Ok path, an "
             "equality of parsed and computed value, spanning the whole header/frame, with degree-8/16 generators "
             "(so every burst <= 8/16 bits is detected); all explicit panic constructs reachable from the stream "
@@ -40,7 +40,7 @@ CLAIMED = {
             "that is discharged structurally (dominating `?`-propagated range check) or reported. Overflow/shift/"
             "The serialise->parse identity is not decided; 'exactly the number of bits it reports' is decided by the C08 effect rules (EFFECT write=count_bits, residual nest, UTF-8 length, extra bits), which this check runs as well.", "4/C18"),
     "C17": ("CASTCHECK + PARAMCHECK + dominance ORDER of verification before use + ERRDISC on VerifyError in the "
-            "encoder entry points + SCAN/samples (every Ok path of the sample verification passes the per-channel scan) + ENTRY/non-empty-block + RANGE/block-size-argument (C04: the block_size argument of both stream encoders is verified into 16..=65535 on every Ok path)",
+            "encoder entry points + SCAN/samples (every Ok path of the sample verification passes the per-channel scan) + SCAN/bounds (the path conditions of the Ok return, with the crate's array scanners replaced by their meaning, evaluated on boundary rows of every width: accept iff -2^(b-1) <= min and max <= 2^(b-1)-1) + ENTRY/non-empty-block + RANGE/block-size-argument (C04: the block_size argument of both stream encoders is verified into 16..=65535 on every Ok path)",
             "Every narrowing cast of a public API argument, every length/byte-width argument of a fill, the "
             "verification-before-use order in the frame and stream entry points and every Result<_, VerifyError> in "
             "the encoder modules is an obligation decided on the MIR (dominating `?`-propagated checks). Hangs and "
@@ -66,14 +66,14 @@ CLAIMED = {
             "retained from an earlier call is reported with the call chain). That the writes cover every index read later "
             "is not decided (runtime lengths).", "4/C10"),
     "C11": ("SHIFTGUARD (dominating zero-width guard for `BITS - n` shifts, call-site guards for private helpers) + "
-            "CALLSET + SIBLING + FILLSTATE (storage growth dominated by a read of the word-level fill) + GROWTH/ceil (resize amount = ceil(bits/word) on a full period of the extracted summary) + LENGTH (effect summary of self.bitlength per sink operation = initial + ideal bit count, as linear forms over case leaves) + PADFORMULA + WIDTH/const + WORDCOUNT (storage length = ceil(bit length / word) preserved by every operation, summaries evaluated over offsets x counts x operand types) + TWOC/default (provided write_twoc hands the n-bit two's-complement code to a required method for n in 1..=64) + OPERAND (the mask of write_msbs and the alignment of write_lsbs, extracted by a flow-sensitive backward slice, evaluated for every n in 1..=BITS and every operand width; nothing touches the sink beside that normalisation) + DEFAULT/bytes-aligned (the provided write_bytes_aligned is align + one 8-bit write per element, in order) + compile-fail witnesses for the sealed operand traits",
+            "CALLSET + SIBLING + FILLSTATE (storage growth dominated by a read of the word-level fill) + GROWTH/ceil (resize amount = ceil(bits/word) on a full period of the extracted summary) + LENGTH (effect summary of self.bitlength per sink operation = initial + ideal bit count, as linear forms over case leaves) + PADFORMULA + WIDTH/const + WORDCOUNT (storage length = ceil(bit length / word) preserved by every operation, summaries evaluated over offsets x counts x operand types) + TWOC/default (provided write_twoc hands the n-bit two's-complement code to a required method for n in 1..=64) + OPERAND (the mask of write_msbs and the alignment of write_lsbs, extracted by a flow-sensitive backward slice, evaluated for every n in 1..=BITS and every operand width; nothing touches the sink beside that normalisation) + DEFAULT/bytes-aligned (the provided write_bytes_aligned is align + one 8-bit write per element, in order) + DEFAULT/write-zeros (effect summary of the provided write_zeros, count-down loops in closed form, evaluated for every run length on a grid: the widths written add up to n and every value is zero) + compile-fail witnesses for the sealed operand traits",
             "Narrow: zero-width operands are guarded in every sink implementation, default methods are built only "
             "from required ones, both write_bytes_aligned overrides align first, foreign operand types cannot be "
             "written, and every operation of both in-memory sinks advances the recorded bit length by exactly the "
             "ideal count (the 'same length' clause), and which operand bits can reach the storage is decided (top-n mask / left "
             "alignment exact for every n and width). The placement arithmetic after the normalisation (shift by the fill state, carry into the next word) is not decided.", "4/C11"),
     "C20": ("XCFG: normalised MIR fingerprints of the encode/serialise closure compared across feature "
-            "configurations + control-dependence obligations on the enumerated gates + (configurations with `par`) the mode-agreement rules of C05, since the feature swaps the single-thread loop for the worker pipeline",
+            "configurations + control-dependence obligations on the enumerated gates + (configurations with `par`) the mode-agreement rules of C05, since the feature swaps the single-thread loop for the worker pipeline; the closure follows calls through crate-local traits to the impls whose Self type the closure mentions (rapid type analysis)",
             "The set of bodies reachable from the encode and serialise entry points without entering a gate, and the "
             "MIR of each, are identical in {} / default+decode / default+decode+experimental (quick) and in all four buildable feature sets "
             "(thorough); gates are entered only under the config flags verification forces off or that select the "
@@ -123,7 +123,7 @@ CLAIMED = {
             "width; STREAMINFO carries those fields in the RFC's positions. Digest values are not decided.", "4/C03"),
     "C05": ("TYPE-SHAPE on the collector + PAIR/dataflow in worker and feeder + SIBLING on the frame encoder incl. "
             "STREAMINFO read/write field disjointness + STATE-ENUM/RESET/PLAIN-STATE/KEY (no state survives a frame "
-            "encoding) + worker-count dataflow + SIBLING/block-loop (both block loops hand every block on, stop only on 0 samples or an error, ask the source for exactly the block_size argument and never consult config.block_size) + STALE-READ and RECYCLE (C10) + the Context fill siblings of C14 (the two modes hash through different fills) + the C08 EFFECT rules (the modes measure frame sizes differently)",
+            "encoding) + worker-count dataflow + SIBLING/block-loop (both block loops hand every block on, stop only on 0 samples or an error, ask the source for exactly the block_size argument and never consult config.block_size) + STALE-READ and RECYCLE (C10) + the Context fill siblings of C14 (the two modes hash through different fills) + the C08 EFFECT rules (the modes measure frame sizes differently) + C03's MPT+FLOW/digest (both modes finish STREAMINFO from the same digest / count sources)",
             "Results are collected in Mutex<BTreeMap<usize,_>> keyed by the frame number and drained in order; number, "
             "buffer and key come from one locked buffer in the worker; the feeder numbers buffers under their lock "
             "with a counter stepping once per enqueue; both modes use the same frame encoder, which reads no "
